@@ -579,6 +579,7 @@ def dstepCore (st : DState) (line : String) : DState × Option String :=
     | _, _, _, _, _ => bad st line
   | ["sharepubs", _] => (st, some "-")
   | ["shareowners", _, _] => (st, some "-")
+  | ["sendowners", _, _] => (st, some "-")
   | ["ilist", _, _, _] => (st, some "-")
   | ["iprop", i, acct, d] =>
     match i.toNat?, unhexStr acct, parseProp (d.splitOn ",") with
